@@ -9,6 +9,8 @@ if [ -f /verif/py/py2v.py ]; then /venv/bin/python /verif/py/py2v.py || echo "tr
 /venv/bin/python /verif/py/mkcoqproject.py
 coq_makefile -f _CoqProject -o Makefile
 timeout 3000 make -k -j16 > /verif/build/make.log 2>&1 || echo "coq build reported errors (the affected checks will report them)"; tail -30 /verif/build/make.log
-if grep -rnE '\b(Admitted|admit|Axiom|Parameter|Conjecture|Unset Guard Checking|bypass_check|Admit Obligations)\b' --include=*.v . | grep -v '(\*.*\*)' ; then
-  echo "forbidden construct found"; exit 1; fi
+if ! /venv/bin/python -c "
+import sys; sys.path.insert(0,'/verif/py'); import vlib
+h = vlib.forbidden_scan()
+print('\n'.join(h)); sys.exit(1 if h else 0)"; then echo "forbidden construct found"; exit 1; fi
 echo "setup ok"
